@@ -308,6 +308,26 @@ func runC08(c *Ctx) {
 			c.R.Check(ok, "R08.1", "match: a tokenizer error is returned with zero Results before any other effect", p.Pos(cv.Pos()), why, why)
 		}
 	}
+	// R08.10: a fault of the reader can only surface if the reader is read: in match no return comes before the call of the
+	// tokenizer (an early "nothing to match against" return hands back a nil error for a reader that would have failed)
+	if m := p.Func(v2pkg, "(*Classifier).match"); m != nil {
+		var tcall ssa.Instruction
+		for _, call := range core.CallsIn(m) {
+			if g := call.Common().StaticCallee(); g != nil && g.Name() == "tokenizeStream" {
+				tcall = call.(ssa.Instruction)
+			}
+		}
+		if tcall != nil {
+			bad := ""
+			for _, b := range m.Blocks {
+				if r, isRet := b.Instrs[len(b.Instrs)-1].(*ssa.Return); isRet && !(tcall.Block() == b || tcall.Block().Dominates(b)) {
+					bad = p.Pos(r.Pos())
+				}
+			}
+			c.R.Check(bad == "", "R08.10", "match: the input is tokenized before anything is returned", p.Pos(m.Pos()), "the call of tokenizeStream dominates every return",
+				"match returns at "+bad+" without having read its input: a reader that fails gets a nil error and empty Results (for an empty corpus, say) where the same bytes through a healthy reader and the fault at any offset must give that error")
+		}
+	}
 	// MatchFrom passes match's results through
 	if mf := p.Func(v2pkg, "(*Classifier).MatchFrom"); c.R.Anchor(mf != nil, "v2.(*Classifier).MatchFrom") {
 		ok, why := passThrough(mf, p.Func(v2pkg, "(*Classifier).match"), -1)
